@@ -35,7 +35,7 @@ ASSUMPTIONS = [
     "membership never crosses address families: an IPv4-mapped IPv6 peer (::ffff:a.b.c.d) is an IPv6 address and is matched by IPv6 entries only; a scope id (%eth0) on a peer is ignored by membership, as ipaddress does",
     "an absent list and an empty list both mean 'no list configured' (that is how AccessControl and ServerConfig read them)",
     "with access control enabled but an empty policy (no entry in either list, default_allow = true) get_access_control_config builds no component, so the peer string is never parsed and an unparsable peer name (e.g. 'unknown' when the transport has no peername) is served like everybody else; the oracle treats this as 'as configured' (everybody is admitted by that policy) and enforces 'unparsable => 53' wherever a policy exists; AccessControl objects themselves refuse unparsable names under every configuration (family objects)",
-    "the chain is assembled in the order certificate auth, access control, rate limiter (extraction item chainOrder, theorem chain_order_tie); this check configures no certificate rules, so access control is the first component a request meets — with certificate rules a refused peer without a certificate on a protected path would meet the 60 of certificate auth first (family wiring of C04)",
+    "the chain is assembled in the order certificate auth, access control, rate limiter (extraction item chainOrder, theorem chain_order_tie); families objects and wiring configure no certificate rules, so access control is the first component a request meets; family layered writes [certificate_auth] rules next to the policy: there a refused peer may meet the 6x of certificate auth first (reference: the real CertificateAuth built from the written rules, evaluated on its own), never an admission",
     "the peer address is what the transport reports as peername[0]; the wiring family feeds it through a fake transport, no socket is bound",
 ]
 LEVEL_TEXT = (
@@ -547,4 +547,212 @@ class Wiring(_AclFamily):
         return f"{en}:component={int(obs['component'])}:{kind}:dflt={int(case['default'])}:{mix}"
 
 
-FAMILIES = [Objects(), Wiring()]
+# ----------------------------------------------------------------------------
+# [access_control] next to the other tables that put components into the chain
+# ----------------------------------------------------------------------------
+LAYER_PATHS = ["/", "/index.gmi", "/app/x.gmi", "/app/", "/locked/a.gmi", "/pub/a.gmi", "/app/../index.gmi", "/app/x.gmi?q=1"]
+LAYER_PREFIXES = ["/app/", "/locked/", "/", "/pub/", "/app/x"]
+LAYER_FILES = {"app/x.gmi": "# app\n", "app/index.gmi": "# app index\n", "locked/a.gmi": "# locked\n", "pub/a.gmi": "# pub\n"}
+
+
+class Layered(_AclFamily):
+    """the [access_control] table written next to [certificate_auth] path rules (require_cert on/off, fingerprint
+    whitelists present / empty / absent) and a [rate_limit] table, through `nauyaca serve --config` to the chain and
+    protocol the server would run — on whichever TLS backend start_server chose; peers from admitted and refused
+    addresses present whitelisted, unlisted or no certificates and ask for paths inside and outside the rules, both
+    of the chain directly and over a connection (counting spy on the request handler).
+
+    Direct oracle (no Lean line): the admission rule of the property text decides per ADDRESS, whatever certificate
+    the peer holds and whatever path it asks for: a peer the written policy refuses is never admitted by the chain and
+    never served (no handler run, no 2x); it receives 53 — or the 6x of certificate auth, which start_server puts in
+    front of access control, when the real CertificateAuth built from the written rules refuses that request on its
+    own.  A peer the policy admits never receives 53."""
+
+    name = "layered"
+    quick_n = 1600
+    thorough_n = 30000
+
+    FIXED = [
+        # a whitelisted certificate does not lift the deny list / the default-deny policy
+        {"allow": None, "deny": ["198.51.100.0/24"], "default": True, "peers": ["198.51.100.9", "192.0.2.7"], "rl_cap": 2,
+         "rules": [{"prefix": "/app/", "require": True, "fps": [0]}],
+         "reqs": [[0, "/app/x.gmi", 0], [0, "/app/x.gmi", 1], [0, "/index.gmi", 0], [1, "/app/x.gmi", 0], [1, "/app/x.gmi", None], [0, "/app/x.gmi", None]]},
+        {"allow": ["192.0.2.0/24"], "deny": None, "default": False, "peers": ["2001:db8::5", "192.0.2.7", "::ffff:192.0.2.7"], "rl_cap": None,
+         "rules": [{"prefix": "/", "require": False, "fps": [1, 2]}, {"prefix": "/app/", "require": True, "fps": None}],
+         "reqs": [[0, "/", 1], [2, "/", 2], [1, "/", 1], [1, "/", 0], [0, "/app/x.gmi", 3], [0, "/pub/a.gmi", None]]},
+        {"allow": None, "deny": None, "default": False, "peers": ["10.1.2.3", "unknown"], "rl_cap": 100000,
+         "rules": [{"prefix": "/locked/", "require": False, "fps": [0, 3]}],
+         "reqs": [[0, "/locked/a.gmi", 3], [1, "/locked/a.gmi", 0], [0, "/", None]]},
+    ]
+
+    def setup(self):
+        from ..sim import mw_wiring
+        from ..sim import srv as sim
+
+        self.W, self.sim = mw_wiring, sim
+        self.capture = mw_wiring.Capture()
+        self.ref_loop = asyncio.new_event_loop()
+
+    def gen(self, rng, n):
+        k = 0
+        for c in self.share(self.FIXED):
+            k += 1
+            yield c
+        while k < n:
+            k += 1
+            allow, deny, nets, default = gen_lists(rng, malformed_p=0.015)
+            peers = list(dict.fromkeys(gen_peers(rng, allow, deny, nets)))[:6]
+            rules = []
+            for _ in range(rng.choice((1, 1, 2, 3))):
+                rules.append({"prefix": rng.choice(LAYER_PREFIXES), "require": rng.random() < 0.5, "fps": rng.choice((None, [], [0], [0], [1, 2], [0, 3]))})
+            hot = [r["prefix"] for r in rules]
+            reqs = []
+            for _ in range(rng.randint(3, 10)):
+                base = rng.choice(hot) if rng.random() < 0.6 else None
+                path = rng.choice(LAYER_PATHS) if base is None else (base if base.endswith("/") else base + ".gmi") + rng.choice(("", "a.gmi", "x.gmi"))
+                # mostly certificates that the rules name
+                listed = [i for r in rules for i in (r["fps"] or [])]
+                cert = rng.choice(listed) if listed and rng.random() < 0.55 else rng.choice((None, None, 0, 1, 3))
+                reqs.append([rng.randrange(len(peers)), path, cert])
+            q = rng.random()
+            yield {"allow": allow, "deny": deny, "default": default, "peers": peers, "rules": rules, "reqs": reqs,
+                   "rl_cap": None if q < 0.4 else 100000 if q < 0.6 else rng.choice((1, 2, 3)), "rcc": rng.random() < 0.15}
+
+    def toml(self, case):
+        tv = self.W.toml_value
+        fps = self.sim.cert_pool()
+        lines = ["[rate_limit]"] + (["enabled = false"] if case["rl_cap"] is None else ["enabled = true", f"capacity = {case['rl_cap']}", "refill_rate = 0.0009765625"])
+        lines += ["", "[access_control]"]
+        if case["allow"] is not None:
+            lines.append(f"allow_list = {tv(case['allow'])}")
+        if case["deny"] is not None:
+            lines.append(f"deny_list = {tv(case['deny'])}")
+        lines += [f"default_allow = {tv(case['default'])}", ""]
+        if case["rules"]:
+            items = []
+            for ru in case["rules"]:
+                d = {"prefix": ru["prefix"]}
+                if ru["require"]:
+                    d["require_cert"] = True
+                if ru["fps"] is not None:
+                    d["allowed_fingerprints"] = [fps[i][1] for i in ru["fps"]]
+                items.append(tv(d))
+            lines += ["[certificate_auth]", "paths = [" + ", ".join(items) + "]", ""]
+        return "\n".join(lines) + "\n", ("require_client_cert = true" if case.get("rcc") else "")
+
+    @staticmethod
+    def url_of(path):
+        from nauyaca.protocol.request import GeminiRequest
+
+        return GeminiRequest.from_line(f"gemini://localhost{path}").normalized_url
+
+    def impl(self, case):
+        out: dict = {}
+        certs = self.sim.cert_pool()
+
+        async def probe(factory):
+            p0 = factory()
+            tls = type(p0).__name__ == "TLSServerProtocol"
+            inner = p0.inner_protocol_factory if tls else factory
+            out["backend"] = "pyopenssl" if tls else "stdlib"
+            chain = getattr(inner(), "middleware", None)
+            out["chain"] = [type(m).__name__ for m in getattr(chain, "middlewares", [])] if chain is not None else []
+            res = []
+            for pi, path, cert in case["reqs"]:
+                peer = case["peers"][pi]
+                fp = certs[cert][1] if cert is not None else None
+                if chain is None:
+                    direct = [True, None]
+                else:
+                    ok, line = await chain.process_request(self.url_of(path), peer, fp)
+                    direct = [bool(ok), line if isinstance(line, str) or line is None else repr(line)]
+                # over a connection (under the stdlib backend no client certificate reaches the application)
+                pr = inner()
+                runs = [0]
+                rh = pr.request_handler
+
+                def spy(req, rh=rh, runs=runs):
+                    runs[0] += 1
+                    return rh(req)
+
+                pr.request_handler = spy
+                t = self.sim.FakeTransport(peer=(peer, 4711) if ":" not in peer else (peer, 4711, 0, 0), cert_der=certs[cert][0] if (cert is not None and tls) else None)
+                pr.connection_made(t)
+                pr.data_received(f"gemini://localhost{path}\r\n".encode())
+                for _ in range(80):
+                    if t.closed:
+                        break
+                    await asyncio.sleep(0)
+                raw = b"".join(bytes.fromhex(a[1]) for a in t.acts if a[0] == "w")
+                try:
+                    pr.connection_lost(None)
+                except Exception:  # noqa: BLE001
+                    pass
+                res.append({"direct": direct, "st": raw[:2].decode("latin1"), "h": runs[0]})
+            out["reqs"] = res
+
+        toml, extra = self.toml(case)
+        started, cli = self.capture.run(toml, probe, server_extra=extra, files=LAYER_FILES)
+        if not started:
+            return {"start": "failed"}
+        out["start"] = "ok"
+        return out
+
+    def oracle(self, case, obs):
+        from nauyaca.server.middleware import CertificateAuth, CertificateAuthConfig, CertificateAuthPathRule
+
+        ref = ref_policy(case["allow"], case["deny"], case["default"], case["peers"])
+        if ref == "nostart":
+            if obs["start"] != "failed":
+                bad = [e for lst in (case["allow"], case["deny"]) for e in (lst or []) if _try_net(e) is None]
+                return ("bad-entry-accepted", f"list entry {bad[0]!r} cannot be interpreted but the server started (allow={case['allow']!r} deny={case['deny']!r})")
+            return None
+        if obs["start"] != "ok":
+            return ("good-config-refused", f"every entry is interpretable but start-up failed: allow={case['allow']!r} deny={case['deny']!r} rules={case['rules']!r}")
+        certs = self.sim.cert_pool()
+        cert_ref = CertificateAuth(CertificateAuthConfig(path_rules=[
+            CertificateAuthPathRule(prefix=r["prefix"], require_cert=r["require"], allowed_fingerprints=None if r["fps"] is None else {certs[i][1] for i in r["fps"]})
+            for r in case["rules"]])) if case["rules"] else None
+        policy = f"allow={case['allow']!r} deny={case['deny']!r} default_allow={case['default']}"
+        no_policy = not case["allow"] and not case["deny"] and bool(case["default"])
+        for i, ((pi, path, cert), r) in enumerate(zip(case["reqs"], obs["reqs"])):
+            peer, admit = case["peers"][pi], ref[pi]
+            if peer_tuple(peer) is None and no_policy and not STRICT_UNPARSED_WITHOUT_POLICY:
+                continue   # see ASSUMPTIONS: no component is built for an empty policy
+            for via, fp in (("chain", certs[cert][1] if cert is not None else None),
+                            ("wire", certs[cert][1] if (cert is not None and obs["backend"] == "pyopenssl") else None)):
+                what = (f"request #{i} ({path!r} from {peer!r} presenting certificate {cert if fp else None}{' [whitelisted by a rule]' if any(cert in (ru['fps'] or []) for ru in case['rules']) and fp else ''}, "
+                        f"asked {'of the chain' if via == 'chain' else 'over a connection'}; backend {obs['backend']}, chain {obs['chain']}, rules {case['rules']})")
+                if via == "chain":
+                    ok, line = r["direct"]
+                    st, served = ("ok" if ok else str(line)[:2]), bool(ok)
+                else:
+                    st, served = r["st"], bool(r["h"]) or r["st"][:1] == "2"
+                if not admit:
+                    if served:
+                        return ("denied-peer-served", f"{what}: the written policy ({policy}) refuses this address, yet the request was {'admitted by the chain' if via == 'chain' else 'served (handler runs ' + str(r['h']) + ', status ' + repr(r['st']) + ')'}")
+                    cert_says = None
+                    if cert_ref is not None:
+                        okc, respc = self.ref_loop.run_until_complete(cert_ref.process_request(self.url_of(path), peer, fp))
+                        cert_says = None if okc else str(respc)[:2]
+                    if st != (cert_says or "53"):
+                        return ("denied-peer-not-53", f"{what}: the written policy ({policy}) refuses this address; expected status {cert_says or '53'}{' (certificate auth comes first)' if cert_says else ''}, got {st!r}")
+                    if via == "chain" and cert_says is None and not is_53(r["direct"][1]):
+                        return ("refusal-not-53", f"{what}: refused with {r['direct'][1]!r} instead of a 53 line")
+                elif st == "53":
+                    return ("wrong-decision", f"{what}: the written policy ({policy}) admits this address but the answer was 53")
+        return None
+
+    def key(self, case, obs):
+        al, dn = case["allow"], case["deny"]
+        kind = ("both" if al and dn else "allow-only" if al else "deny-only" if dn else "no-entries")
+        if obs["start"] != "ok":
+            return f"no-start:{kind}"
+        ref = ref_policy(al, dn, case["default"], case["peers"])
+        listed_denied = ref != "nostart" and any(not ref[pi] and cert is not None and any(cert in (ru["fps"] or []) and path.startswith(ru["prefix"]) for ru in case["rules"])
+                                                 for pi, path, cert in case["reqs"])
+        sts = "".join(sorted({r["st"][:1] or "-" for r in obs["reqs"]}))
+        return f"{obs['backend']}:{kind}:dflt={int(case['default'])}:{'whitelisted-cert-from-denied-address:' if listed_denied else ''}st={sts}"
+
+
+FAMILIES = [Objects(), Wiring(), Layered()]
